@@ -447,6 +447,48 @@ def histStepShared {γ : Type} (W : List γ → List γ) (buf : List γ) : Ev γ
 def histShared {γ : Type} (W : List γ → List γ) (buf : List γ) (evs : List (Ev γ)) : List γ :=
   evs.foldl (histStepShared W) buf
 
+/-! ## array / list arguments of the constructor (times, sigma, covariates) and the CALLER's containers
+
+`self._times = np.sort(times)`, `sigma = list(sigma) … np.array(sigma)`, `covariates = np.array(covariates)`:
+every container handed in is COPIED into a new cell owned by the posterior.  The caller goes on using its
+containers — one covariate buffer filled again for the next cohort's posterior, a times array rescaled in
+place.  Containers are cells of a store; the caller holds handles on its own cells only. -/
+
+/-- containers by identity -/
+abbrev Buffers (γ : Type) := List (List γ)
+
+inductive BufEv (γ : Type) where
+  /-- the caller writes new contents into ITS container `p` (`buf[...] = v`) -/
+  | write (p : Nat) (v : List γ)
+  /-- a constructor call with container `p` as an argument: `np.array(arg)` allocates a NEW cell -/
+  | construct (p : Nat)
+
+/-- does the event write into cell `i`? -/
+def BufEv.writes {γ : Type} : BufEv γ → Nat → Bool
+  | .write p _, i => p == i
+  | .construct _, _ => false
+
+def bufStep {γ : Type} (h : Buffers γ) : BufEv γ → Buffers γ
+  | .write p v => h.set p v
+  | .construct p => h ++ [h.getD p []]
+
+def bufRun {γ : Type} (h : Buffers γ) (evs : List (BufEv γ)) : Buffers γ := evs.foldl bufStep h
+
+/-- one posterior per cohort, the cohort's values written into the ONE container `0` before each
+    constructor call -/
+def cohorts {γ : Type} : List (List γ) → List (BufEv γ)
+  | [] => []
+  | v :: vs => .write 0 v :: .construct 0 :: cohorts vs
+
+/-- NOT chi: `np.asarray(arg)` — the posterior keeps the caller's container itself.  State: the store
+    and the handles held by the posteriors built so far. -/
+def bufStepAliased {γ : Type} (σ : Buffers γ × List Nat) : BufEv γ → Buffers γ × List Nat
+  | .write p v => (σ.1.set p v, σ.2)
+  | .construct p => (σ.1, σ.2 ++ [p])
+
+def bufRunAliased {γ : Type} (σ : Buffers γ × List Nat) (evs : List (BufEv γ)) : Buffers γ × List Nat :=
+  evs.foldl bufStepAliased σ
+
 /-- the `n` entries of `evaluateS1(x)[1]` as the array the caller receives -/
 def gradArray {τ : Type} (c : Cfg) (E : Env τ α) (G : GradEnv α) (filt : AnyFilt α)
     (sortedTimes : Nat → τ) (dflt : α) (x : List α) : List α :=
